@@ -10,6 +10,7 @@ package server
 
 import (
 	"fmt"
+	"sort"
 	"strings"
 	stdtime "time"
 
@@ -97,4 +98,91 @@ func c10RedefScenarios() []c10RedefParams {
 		{"redefine-refuse-then-write", true, 0},
 		{"redefine-500-no-further-write", false, 500},
 	}
+}
+
+// ---- a subscriber on a follower while the leader publishes the notifications of one write
+
+type c10FollowSubParams struct {
+	Name  string `json:"name"`
+	Nchan int    `json:"nchan"`
+}
+
+func c10FollowSubRun(job *Job, p c10FollowSubParams, prefix []int) (out schedOut) {
+	x := runExec(job, freezeAllBut("follow", "Serve#2", "Serve#4"), func(x *Exec) {
+		L := x.Start("L", x.dir+"/L", 9001, nil)
+		F := x.Start("F", x.dir+"/F", 9002, nil)
+		lc, fc := x.Dial(L.Addr), x.Dial(F.Addr)
+		for i := 0; i < p.Nchan; i++ {
+			lc.Do("SETCHAN", fmt.Sprintf("ch%d", i), "NEARBY", "k", "FENCE", "POINT", "1", "1", "100000")
+		}
+		fc.Do("FOLLOW", "127.0.0.1", "9001")
+		ok := false
+		for i := 0; i < 100 && !ok; i++ {
+			vsched.Sleep(int64(100 * stdtime.Millisecond))
+			vsched.Quiesce()
+			ok = followerCaughtUp(fc)
+		}
+		if !ok {
+			out.Err = "the follower did not catch up within 10 virtual seconds"
+			return
+		}
+		ls, fs := x.Dial(L.Addr), x.Dial(F.Addr)
+		ls.Send(respCmd("PSUBSCRIBE", "ch*"))
+		fs.Send(respCmd("PSUBSCRIBE", "ch*"))
+		vsched.Quiesce()
+		recvPayloads(ls)
+		recvPayloads(fs)
+		w1 := x.Dial(L.Addr)
+		vsched.Quiesce()
+		w1.c.Inject(respCmd("SET", "k", "o0", "POINT", "1", "1"))
+		vsched.Prefix = prefix
+		vsched.Exploring = true
+		done := vsched.WaitUntilOr(func() bool { return countReplies(w1) >= 1 }, int64(30*stdtime.Second))
+		vsched.Quiesce()
+		vsched.Exploring = false
+		out.Trace = append([]vsched.ChoicePoint(nil), vsched.Trace...)
+		out.Diverged = vsched.Diverged
+		if !done {
+			out.VSig, out.VDetail, out.Obs = "C10/no-reply:"+p.Name, vsched.Dump(), "NO-REPLY"
+			return
+		}
+		for i := 0; i < 15; i++ {
+			vsched.Sleep(int64(100 * stdtime.Millisecond))
+			vsched.Quiesce()
+		}
+		key := func(ms []string) []string {
+			var all []string
+			for _, m := range ms {
+				hook := "?"
+				if x := reHookName.FindStringSubmatch(m); x != nil {
+					hook = x[1]
+				}
+				all = append(all, hook+"/"+msgKey(m))
+			}
+			sort.Strings(all)
+			return all
+		}
+		la, fa := key(recvPayloads(ls)), key(recvPayloads(fs))
+		out.Obs = fmt.Sprintf("leader=%d follower=%d", len(la), len(fa))
+		if len(la) == 0 {
+			out.Err = "the subscriber on the leader received nothing"
+			return
+		}
+		if strings.Join(la, ",") != strings.Join(fa, ",") {
+			sig := "lost"
+			if len(fa) > len(la) {
+				sig = "duplicated"
+			} else if len(fa) == len(la) {
+				sig = "lost-and-duplicated"
+			}
+			out.VSig = "C10/follower-subscriber-" + sig + ":" + p.Name
+			out.VDetail = fmt.Sprintf("one SET on the leader fires %d channels: the subscriber on the leader received %v, the subscriber on the caught-up follower %v", p.Nchan, la, fa)
+		}
+	})
+	if strings.HasPrefix(x.Err, "deadlock") && out.VSig == "" {
+		out.VSig, out.VDetail, out.Obs = "C10/deadlock:"+p.Name, x.Err, "DEADLOCK"
+	} else if x.Err != "" && out.Err == "" {
+		out.Err = x.Err
+	}
+	return out
 }
